@@ -14,7 +14,8 @@
    Compression is any pair of functions with decomp c (comp c b) = b. *)
 From Coq Require Import List NArith ZArith Bool.
 From KV Require Import Lib.Bits Lib.Bytes Lib.Crc Spec.RecordFormat Model.Records
-  Proofs.RecordsCodec Proofs.RecordsSet Proofs.RecordsWriters Proofs.RecordsLegacy.
+  Proofs.RecordsCodec Proofs.RecordsSet Proofs.RecordsWriters Proofs.RecordsLegacy
+  Proofs.RecordsReaders Proofs.RecordsConn Proofs.RecordsFetch Proofs.RecordsV1.
 Import ListNotations.
 Open Scope Z_scope.
 
@@ -58,7 +59,7 @@ Theorem C05_produce_decodable_legacy_v2 : forall comp decomp : N -> list N -> li
 Proof. exact legacy_v2_full. Qed.
 Print Assumptions C05_produce_decodable_legacy_v2.
 
-(* ---- not proved (checked by the differential run only); kept at full strength ---- *)
+(* ---- full statements not (yet) proved in general; see the _partial theorems below ---- *)
 (* format 1 writers: messages magic 1, IEEE CRC over magic..value, wrapper for codecs *)
 Definition C05_produce_decodable_proto_v1_full_statement : Prop :=
   forall comp decomp : N -> list N -> list N, (forall c b, decomp c (comp c b) = b) ->
@@ -67,20 +68,38 @@ Definition C05_produce_decodable_proto_v1_full_statement : Prop :=
   zlen (proto_messages attrs now rs) < ZM31 ->
   exists its, dec_set decomp (proto_v1 comp attrs now rs) = Some its /\
     raw_records its = mapi_from (fun i r => mk_rec i (pts now (i_ns r)) (i_key r) (i_val r) []) 0 rs.
-Definition C05_produce_decodable_legacy_v1_full_statement : Prop :=
-  forall comp decomp : N -> list N -> list N, (forall c b, decomp c (comp c b) = b) ->
-  forall codec ms, Forall wf_in ms -> ltimes_ok ms -> small ms -> (codec <= 4)%N ->
-  Forall (fun m => in_i64 (i_off m)) ms ->
-  zlen (legacy_v1 comp codec ms) < ZM31 -> zlen (legacy_v1 idc 0 ms) < ZM31 ->
+(* proved for attributes = the codec id 0..4 (what Writer/Client pass for format 1); missing:
+   other attribute bits.  Messages magic 1, IEEE CRC over magic..value, offsets 0..n-1, one
+   wrapper message (offset 0, null key, timestamp = now) holding the compressed inner set
+   when a codec is given; format 1 has no headers. *)
+Theorem C05_produce_decodable_proto_v1_partial : forall comp decomp : N -> list N -> list N,
+  (forall c b, decomp c (comp c b) = b) ->
+  forall codec now rs,
+  (codec <= 4)%N -> in_i64 now -> Forall wf_in rs -> ptimes_ok now rs -> small rs ->
+  zlen (proto_messages 0 now rs) < ZM31 -> zlen (proto_v1 comp (Z.of_N codec) now rs) < ZM31 + 4 ->
+  exists its, dec_set decomp (proto_v1 comp (Z.of_N codec) now rs) = Some its /\
+    raw_records its = mapi_from (fun i r => mk_rec i (pts now (i_ns r)) (i_key r) (i_val r) []) 0 rs.
+Proof. exact proto_v1_decodable. Qed.
+Print Assumptions C05_produce_decodable_proto_v1_partial.
+
+(* legacy Conn writer, format 1 (the record set of writeProduceRequestV2): uncompressed
+   messages carry Message.Offset as given; with a codec the inner offsets are 0..n-1 inside one
+   wrapper (offset 0, null key, timestamp 0).  Every record list (also the empty one). *)
+Theorem C05_produce_decodable_legacy_v1 : forall comp decomp : N -> list N -> list N,
+  (forall c b, decomp c (comp c b) = b) ->
+  forall codec ms,
+  (codec <= 4)%N -> Forall wf_in ms -> ltimes_ok ms -> small ms -> Forall (fun m => in_i64 (i_off m)) ms ->
+  zlen (concat (map enc_msg (msgs_of (if (codec =? 0)%N then (fun _ r => i_off r) else (fun i _ => i))
+                                     (fun r => ts_ms (i_ns r)) ms))) < ZM31 ->
+  zlen (enc_items comp (v1_items codec 0 (fun _ r => i_off r) (fun r => ts_ms (i_ns r)) ms)) < ZM31 ->
   exists its, dec_set decomp (legacy_v1 comp codec ms) = Some its /\
     raw_records its = mapi_from (fun i r => mk_rec (if (codec =? 0)%N then i_off r else i)
                                               (ts_ms (i_ns r)) (i_key r) (i_val r) []) 0 ms.
+Proof. exact legacy_v1_decodable. Qed.
+Print Assumptions C05_produce_decodable_legacy_v1.
 
-(* nil/empty are not distinguished by the Conn path; its makeTime maps t <= 0 to the zero time *)
-Definition nilify (b : obytes) : obytes := match b with Some [] => None | x => x end.
-Definition conn_view (r : orec) : orec :=
-  mk_rec (o_off r) (legacy_ts (o_ts r)) (nilify (o_key r)) (nilify (o_val r))
-         (map (fun h => (fst h, nilify (snd h))) (o_hdrs r)).
+(* nilify / conn_view (Proofs/RecordsConn.v): nil/empty are not distinguished by the Conn path;
+   its makeTime maps t <= 0 to the zero time *)
 (* a fetch response: offsets strictly increasing and starting at or after the fetch offset,
    magic-1 wrappers with relative inner offsets 0..n-1 *)
 Definition fetch_valid (min : Z) (its : list item) : Prop :=
@@ -100,18 +119,67 @@ Definition C05_fetch_paths_agree_full_statement : Prop :=
   proto_read decomp (enc_set comp its) = POut (records its) false /\
   exists fuel0, forall fuel, (fuel0 <= fuel)%nat ->
     msr_read decomp fuel min (enc_items comp its) = (map conn_view (records_ctl its), MEof).
-(* Client.Fetch never shows records of control batches *)
+(* Client.Fetch never shows records of control batches (any sequence of items) *)
 Definition C05_control_hidden_full_statement : Prop :=
   forall decomp bs recs e, proto_read decomp bs = POut recs e ->
   forall its ok, dec_prefix decomp (length bs) (skipn 4 bs) = (its, ok) ->
   forall r, In r recs -> In r (records its).
-(* a batch / message whose checksum does not match yields none of its records *)
+(* a batch / message whose checksum does not match yields none of its records (any items) *)
 Definition C05_crc_mismatch_no_records_full_statement : Prop :=
   forall comp decomp : N -> list N -> list N, (forall c b, decomp c (comp c b) = b) ->
   forall good bad_bytes rest, Forall (wf_item comp) good ->
   (forall fuel, exists l, dec_prefix decomp fuel bad_bytes = (l, false) /\ l = []) ->
   exists e, proto_read decomp (let c := enc_items comp good ++ bad_bytes ++ rest in put_bes 4 (zlen c) ++ c)
             = POut (records good) e.
+
+(* ---- proved for fetch responses made of format-2 batches (every codec 0..4, control and
+        transactional batches, offset gaps, any timestamps); missing: format 0/1 messages and
+        wrappers, and sequences mixing formats (covered by the differential run only) ----
+   batch_ok: wf_batch (field ranges, sizes below 2^31), codec <= 4, base+offsetDelta and
+   firstTimestamp+timestampDelta within int64; batch_ok' adds: at least one record. *)
+
+(* both paths return the reference's records: Client.Fetch without control batches and
+   without error; the Conn path all of them (it does not know control batches), nil for
+   empty, then io.EOF; without control batches the two lists are equal up to conn_view *)
+Theorem C05_fetch_paths_agree_partial : forall comp decomp : N -> list N -> list N,
+  (forall c b, decomp c (comp c b) = b) ->
+  forall bs fuel min,
+  bs <> [] -> Forall (batch_ok' comp) bs -> zlen (enc_items comp (map IBatch bs)) < ZM31 ->
+  (length (records_ctl (map IBatch bs)) < fuel)%nat ->
+  proto_read decomp (enc_set comp (map IBatch bs)) = POut (records (map IBatch bs)) false /\
+  msr_read decomp fuel min (enc_items comp (map IBatch bs)) =
+    (map conn_view (records_ctl (map IBatch bs)), MEof) /\
+  (Forall (fun b => is_control (b_attrs b) = false) bs ->
+   exists recs, proto_read decomp (enc_set comp (map IBatch bs)) = POut recs false /\
+                msr_read decomp fuel min (enc_items comp (map IBatch bs)) = (map conn_view recs, MEof) /\
+                recs = records (map IBatch bs)).
+Proof. exact fetch_paths_agree_v2. Qed.
+Print Assumptions C05_fetch_paths_agree_partial.
+
+(* Client.Fetch hands out exactly the records of the batches that are not control batches *)
+Theorem C05_control_hidden_partial : forall comp decomp : N -> list N -> list N,
+  (forall c b, decomp c (comp c b) = b) ->
+  forall bs, Forall (batch_ok comp) bs -> zlen (enc_items comp (map IBatch bs)) < ZM31 ->
+  exists recs, proto_read decomp (enc_set comp (map IBatch bs)) = POut recs false /\
+    (forall r, In r recs -> exists b, In b bs /\ is_control (b_attrs b) = false /\ In r (map (rec_of_rec2 b) (b_recs b))) /\
+    (forall b r, In b bs -> is_control (b_attrs b) = false -> In r (map (rec_of_rec2 b) (b_recs b)) -> In r recs).
+Proof. exact control_hidden_v2. Qed.
+Print Assumptions C05_control_hidden_partial.
+
+(* good batches, then a format-2 batch (any content [tail] after a stored checksum [crc] that
+   differs from the CRC-32C of that content), then anything: Client.Fetch returns exactly the
+   records of the good batches; it reports the error only when there was no good batch *)
+Theorem C05_crc_mismatch_no_records_partial : forall comp decomp : N -> list N -> list N,
+  (forall c b, decomp c (comp c b) = b) ->
+  forall bs base epoch crc tail rest,
+  Forall (batch_ok comp) bs -> in_i64 base -> 9 + zlen tail < ZM31 -> length crc = 4%nat ->
+  get_be crc 0%N <> w32 (crc32c tail) ->
+  let content := concat (map (enc_batch comp) bs) ++ raw_batch base epoch crc tail ++ rest in
+  zlen content < ZM31 ->
+  proto_read decomp (put_bes 4 (zlen content) ++ content) =
+  POut (records (map IBatch bs)) (match bs with [] => true | _ => false end).
+Proof. exact crc_mismatch_v2. Qed.
+Print Assumptions C05_crc_mismatch_no_records_partial.
 
 (* ---- non-vacuity: concrete instances meeting the hypotheses ---- *)
 Example C05_nonvacuous_proto_v2 :
